@@ -3,6 +3,7 @@ state out of the real generator frame, and the icontract postconditions that are
 methods.  `install()` may be called by any workload that touches coba; the evaluation counters are in `CNT`."""
 import math, builtins
 from collections import Counter
+from fractions import Fraction
 
 # ------------------------------------------------------------------------------------------ the LCG of the statement
 A, C, M = 116646453, 9, 2**30
@@ -78,6 +79,9 @@ EPS = 2.0**-20
 
 def _real(x): return isinstance(x, (int, float)) and not isinstance(x, bool) and x == x and abs(x) != math.inf
 def _int(x):  return isinstance(x, int) and not isinstance(x, bool)
+def _weight(x):
+    """a weight is an ordinary real number: int, float, or an exact rational (fractions.Fraction)"""
+    return _real(x) or isinstance(x, Fraction)
 
 def bounds_in_domain(lo, hi):
     return _real(lo) and _real(hi) and abs(lo) <= BOX and abs(hi) <= BOX and hi - lo >= EPS
@@ -150,7 +154,9 @@ def shuffle_is_permutation(result, OLD):
 def _weights_ok(seq, weights):
     try:
         if len(weights) != len(seq): return False
-        return all(_real(w) and w >= 0 for w in weights) and sum(weights) > 0
+        if not (all(_weight(w) and w >= 0 for w in weights) and sum(weights) > 0): return False
+        if any(isinstance(w, Fraction) for w in weights): CNT["contract.weights.fraction"] += 1
+        return True
     except TypeError: return False
 
 def _is(x, y):
